@@ -858,11 +858,12 @@ Proof. intros He. simpl. rewrite He. reflexivity. Qed.
 (* `exec name` itself is never affected by the flag *)
 Theorem explicit_exec_irrelevant_for_exec cfg cfg' neg args st :
   (forall prog, can_start cfg st prog = can_start cfg' st prog) ->
+  (forall prog, prog_found cfg st prog = prog_found cfg' st prog) ->
   c_deadline cfg = c_deadline cfg' -> c_cancelled cfg = c_cancelled cfg' -> c_continue cfg = c_continue cfg' ->
   cmd_exec cfg neg args st = cmd_exec cfg' neg args st.
 Proof.
-  intros H Hd Hc Hk. unfold cmd_exec, fg_end, fg_racy. rewrite Hd, Hc, Hk. destruct args as [|prog rest]; [reflexivity|].
-  destruct (bg_spec _); [destruct rest; [reflexivity|]; destruct (find_bg _ _); [reflexivity|]|]; rewrite H; reflexivity.
+  intros H Hp Hd Hc Hk. unfold cmd_exec, fg_end, fg_racy, start_failed_state. rewrite Hd, Hc, Hk. destruct args as [|prog rest]; [reflexivity|].
+  destruct (bg_spec _); [destruct rest; [reflexivity|]; destruct (find_bg _ _); [reflexivity|]|]; rewrite H, Hp; reflexivity.
 Qed.
 
 (* ---- Params.RequireUniqueNames: one unpacking step *)
